@@ -74,6 +74,9 @@ def run(ctx):
             SUB = '<units::AllocatedMemory as std::ops::SubAssign>::sub_assign'
             # (a roll-back subtraction inside allocate is allowed; R09.4 decides the per-path balance)
             ok = how in ((ADD, SUB) if b.nid == ALLOC else (SUB,))
+            # a plain store `stats.size = total` inside allocate: what it stores is decided by the outcome table of R09.4
+            if not ok and b.nid == ALLOC and how is None and s['k'] == 'assign' and any(isinstance(e, dict) and e.get('n') == 'size' for e in s['place']['p']):
+                ok, how = True, 'plain store (value decided by R09.4)'
         r1.inst({'body': b.id, 'mode': 'write', 'via': how, 'site': mirq.site(b, bb, j) if j is not None else mirq.site(b, bb)}, ok=ok, kind=(b.id, 'w'))
         if not ok:
             r1.fail('%s/size-write' % b.nid, mirq.site(b, bb), 'RuntimeStats.size is mutated here (%s); only allocate may add and deallocate may subtract' % (how or mode))
@@ -173,82 +176,25 @@ def run(ctx):
                     r3.inst({'body': b.id, 'field': fld, 'mode': 'read'}, kind=(b.id, fld))
 
     # ---------------- R09.4 per-path balance of allocate
-    r4 = ctx.rule('R09.4', 'allocate: every path is balanced (Ok: +size once, returns that size; Err: net zero)')
+    r4 = ctx.rule('R09.4', 'allocate: every outcome is balanced (Ok: the counter grows by exactly the size that is returned; Err: net zero)')
     al = mir.find(ALLOC)
     if len(al) != 1:
         r4.fail('anchor/allocate', '-', 'Runtime::allocate not found')
     else:
-        b = al[0]
-        ADD = '<units::AllocatedMemory as std::ops::AddAssign>::add_assign'
-        SUB = '<units::AllocatedMemory as std::ops::SubAssign>::sub_assign'
-
-        def events(bb):
-            ev = []
-            for j, s2 in enumerate(b.blocks[bb]['stmts']):
-                if s2['k'] == 'assign' and s2['place']['l'] == 0 and not s2['place']['p'] and s2['rv']['k'] == 'agg' and s2['rv'].get('adt') == 'std::result::Result':
-                    ev.append(('ret', s2['rv']['v'], mirq.chase_op(b, s2['rv']['ops'][0])))
-            t = b.term(bb)
-            if t['k'] == 'call':
-                nm = strip_generics(t.get('callee') or t.get('decl') or '')
-                if nm == ADD:
-                    ev.append(('add', mirq.chase_op(b, t['args'][1])))
-                elif nm == SUB:
-                    ev.append(('sub', mirq.chase_op(b, t['args'][1])))
-                elif nm.endswith('FromResidual>::from_residual') and t['dest']['l'] == 0:
-                    ev.append(('ret', 'Err', None))
-            return ev
-        paths = []
-
-        def dfs(bb, seen, evs):
-            if len(paths) > 5000:
-                return
-            evs = evs + events(bb)
-            t = b.term(bb)
-            if t['k'] == 'return':
-                paths.append(evs)
-                return
-            for nb in b.succs()[bb]:
-                if nb in seen:
-                    evs2 = evs + [('loop',)]
-                    paths.append(evs2)
-                    continue
-                dfs(nb, seen | {nb}, evs)
-        dfs(0, {0}, [])
-        if not paths or len(paths) > 5000:
-            r4.fail('allocate/paths', mirq.site(b, 0), 'could not enumerate the paths of allocate (%d)' % len(paths))
-        saw_add = False
-        for evs in paths:
-            adds = [e[1] for e in evs if e[0] == 'add']
-            subs = [e[1] for e in evs if e[0] == 'sub']
-            rets = [e for e in evs if e[0] == 'ret']
-            loop = any(e[0] == 'loop' for e in evs)
-            ok = True
-            why = ''
-            if loop or len(rets) != 1:
-                ok, why = False, 'unrecognised path shape (loop or no unique return value)'
-            elif rets[0][1] == 'Err':
-                if sorted(map(str, adds)) != sorted(map(str, subs)):
-                    ok, why = False, 'a failed allocation leaves its bytes in RuntimeStats.size (added %d time(s), subtracted %d): the value is never built, so no Drop returns them' % (len(adds), len(subs))
-            else:
-                if subs:
-                    ok, why = False, 'a successful allocation subtracts from the counter'
-                elif len(adds) > 1:
-                    ok, why = False, 'a successful allocation adds more than once'
-                elif len(adds) == 1:
-                    saw_add = True
-                    if str(adds[0]) != str(rets[0][2]):
-                        ok, why = False, 'the size returned to the caller (later given back by Drop) is not the amount that was added'
+        table = allocate_table(ctx, al[0])
+        for scen, want, got in table:
+            ok = got == {want}
+            r4.inst({'scenario': scen, 'expected (result, counter)': str(want), 'outcomes': sorted(map(str, got))}, ok=ok, kind=scen)
+            if not ok and not (want[0] == 'err' and {g[0] for g in got} == {'ok'}) and not (want[0] != 'err' and {g[0] for g in got} == {'err'}):
+                # (a wrong decision -- Ok where Err is due or the reverse -- is R09.8's finding; this one is about the bytes)
+                if want[0] == 'err':
+                    why = 'a failed allocation leaves its bytes in RuntimeStats.size: the value is never built, so no Drop returns them'
+                elif any(g[0] != want[0] for g in got):
+                    why = 'the size returned to the caller (later given back by Drop) is not the amount that was added'
                 else:
-                    # no accounting on this path: must be the no-limit branch returning zero
-                    k = rets[0][2]
-                    if not (k and k[0] == 'call' and 'Into' in (k[1][1].get('decl') or '') and k[1][1]['args'][0].get('const', {}).get('int') == '0'):
-                        ok, why = False, 'a path returns Ok(size) without adding, and the size is not the constant 0'
-            r4.inst({'events': [e[0] if e[0] != 'ret' else 'ret ' + e[1] for e in evs]}, ok=ok, kind=str(evs))
-            if not ok:
-                r4.fail('allocate/unbalanced-path', mirq.site(b, 0), why, {'events': [str(e) for e in evs]})
-        if not saw_add:
-            r4.fail('allocate/no-add', mirq.site(b, 0), 'no path of allocate adds to the counter')
-        r4.need(3)
+                    why = 'a successful allocation does not add exactly its size to the counter'
+                r4.fail('allocate/unbalanced-path', mirq.site(al[0], 0), '%s (%s: expected %s, found %s)' % (why, scen, want, sorted(map(str, got))))
+        r4.need(4)
 
     # ---------------- R09.5 leak primitives
     r5 = ctx.rule('R09.5', 'no leak / raw-duplication primitive outside util::{trysort,try_heap}')
@@ -312,69 +258,16 @@ def run(ctx):
     r8 = ctx.rule('R09.8', 'allocate enforces total > limit => AllocationLimitReached; limit read only in allocate / pre-flight')
     if len(al) == 1:
         b = al[0]
-        cmp_ok = False
-        for i, j, s in b.stmts():
-            if s['k'] == 'assign' and s['rv']['k'] == 'bin' and s['rv']['op'] in ('Gt', 'Ge', 'Lt', 'Le'):
-                # operands: usize::from(stats.size) and the limit payload
-                ka = mirq.chase_op(b, s['rv']['a'])
-                kb = mirq.chase_op(b, s['rv']['b'])
-                def is_total(k):
-                    return k[0] == 'call' and 'From' in (k[1][1].get('decl') or '') and 'AllocatedMemory' in ' '.join(k[1][1].get('substs') or [])
-                def is_limit(k):
-                    if k[0] == 'rv':
-                        rv = k[1][2]['rv']
-                        p = op_place(rv['op']) if rv['k'] == 'use' else None
-                        return bool(p) and any(isinstance(e, dict) and e.get('n') == 'size_limit' for e in p['p'])
-                    return False
-                op = s['rv']['op']
-                MIRROR = {'Ge': 'Le', 'Gt': 'Lt', 'Le': 'Ge', 'Lt': 'Gt'}
-                NEG = {'Ge': 'Lt', 'Gt': 'Le', 'Le': 'Gt', 'Lt': 'Ge'}
-                if is_total(ka) and is_limit(kb):
-                    op_tl = op
-                elif is_limit(ka) and is_total(kb):
-                    op_tl = MIRROR[op]
+        table = allocate_table(ctx, b)
+        for scen, want, got in table:
+            decided = {g[0] if g[0] in ('ok', 'err') else 'unrecognised' for g in got}
+            ok = decided == {want[0]}
+            r8.inst({'fn': b.id, 'scenario': scen, 'expected': want[0], 'decisions': sorted(decided)}, ok=ok, kind=('decision', scen))
+            if not ok:
+                if scen == 'the new total exceeds the limit' and decided == {'ok'} and all(t[2] and {g[0] for g in t[2]} == {t[1][0]} for t in table if t[0] != scen):
+                    r8.fail('allocate/compare-before-add', mirq.site(b, 0), 'allocate compares the total from before the new bytes are added: an allocation that crosses the limit is granted, so more than L bytes can be accounted for live values without a violation')
                 else:
-                    continue
-                # which edge of the test leads to the violation?  follow plain moves / Not to the switch on the result
-                viol_bbs = [bb2 for bb2, j2, x in b.stmts() if x['k'] == 'assign' and x['rv']['k'] == 'agg' and x['rv'].get('adt') == 'runtime_violation::RuntimeViolation' and x['rv']['v'] == 'AllocationLimitReached']
-                cur = s['place']['l']
-                negs = 0
-                for _ in range(6):
-                    sws = [i2 for i2 in range(len(b.blocks)) if b.term(i2)['k'] == 'switch' and op_local(b.term(i2)['discr']) == cur]
-                    if sws:
-                        t2 = b.term(sws[0])
-                        false_t = [x for v, x in t2['targets'] if v == '0']
-                        true_t = t2['otherwise']
-                        on_true = any(mirq.dominates(b, true_t, vb) for vb in viol_bbs) and true_t not in false_t
-                        on_false = bool(false_t) and any(mirq.dominates(b, false_t[0], vb) for vb in viol_bbs) and false_t[0] != true_t
-                        if on_true != on_false:
-                            pol = on_true if negs % 2 == 0 else not on_true
-                            eff = op_tl if pol else NEG[op_tl]
-                            cmp_ok = eff in ('Gt', 'Ge')
-                        break
-                    nxt = None
-                    for i2, j2, s2 in b.stmts():
-                        if s2['k'] == 'assign' and not s2['place']['p']:
-                            if s2['rv']['k'] == 'un' and s2['rv']['op'] == 'Not' and op_local(s2['rv']['a']) == cur:
-                                nxt = s2['place']['l']
-                                negs += 1
-                            elif s2['rv']['k'] == 'use' and op_local(s2['rv']['op']) == cur:
-                                nxt = s2['place']['l']
-                    if nxt is None:
-                        break
-                    cur = nxt
-        # the total that is compared must already contain the new bytes: the comparison is dominated by the `size +=` of this call
-        adds = [i2 for i2, j2, s2 in b.stmts() if s2['k'] == 'assign' and any(isinstance(e, dict) and e.get('n') == 'size' for e in s2['place']['p'])] + \
-               [bb2 for bb2, t2 in b.calls() if strip_generics(t2.get('callee') or t2.get('decl') or '').endswith('AddAssign>::add_assign')]
-        cmps_ = [i2 for i2, j2, s2 in b.stmts() if s2['k'] == 'assign' and s2['rv']['k'] == 'bin' and s2['rv']['op'] in ('Gt', 'Ge', 'Lt', 'Le')
-                 and any(mirq.chase_op(b, o)[0] == 'call' and 'AllocatedMemory' in ' '.join(mirq.chase_op(b, o)[1][1].get('substs') or []) for o in (s2['rv']['a'], s2['rv']['b']))]
-        after_add = bool(cmps_) and all(any(mirq.dominates(b, a_, c_) for a_ in adds) for c_ in cmps_)
-        r8.inst({'fn': b.id, 'limit_test_sees_the_total_after_adding': after_add}, ok=after_add, kind='after-add')
-        if not after_add:
-            r8.fail('allocate/compare-before-add', mirq.site(b, cmps_[0] if cmps_ else 0), 'allocate compares the total from before the new bytes are added: an allocation that crosses the limit is granted, so more than L bytes can be accounted for live values without a violation')
-        r8.inst({'fn': b.id, 'shape': 'usize::from(stats.size) > size_limit => Err(AllocationLimitReached)'}, ok=cmp_ok)
-        if not cmp_ok:
-            r8.fail('allocate/compare', mirq.site(b, 0), 'allocate no longer compares the accounted total (after adding) against size_limit with the violation on the exceeding side')
+                    r8.fail('allocate/compare', mirq.site(b, 0), 'allocate no longer compares the accounted total (after adding) against size_limit with the violation on the exceeding side (%s: expected %s, found %s)' % (scen, want[0], sorted(decided)))
     for b, bb, j, mode, p in mirq.field_accesses(mir, 'runtime::RuntimeLimits', 'size_limit'):
         ok = b.nid in (ALLOC, 'runtime::Runtime::can_allocate_by') or b.get('impl_trait') in ('std::fmt::Debug', 'std::default::Default')
         r8.inst({'body': b.id, 'site': mirq.site(b, bb)}, ok=ok, kind=(b.id, 'size_limit'))
@@ -389,6 +282,7 @@ def run(ctx):
 
     # ---------------- R09.9 the size of a big integer is counted in bytes
     big_integer_units(ctx)
+    native_object_size(ctx)
 
 
 def big_integer_units(ctx):
@@ -523,3 +417,196 @@ def big_integer_units(ctx):
         if not ok:
             r9.fail('%s/unit' % b.nid, mirq.site(b, 0), 'a byte count is computed in the wrong unit: the function returns %s where bytes are expected (64-bit digits need x8, bits need /8): big integers are accounted for a fraction of their payload, so the size limit is not enforced for them' % sorted(rets - {'bytes', 'const'}))
     r9.need(2)
+
+
+def native_object_size(ctx):
+    """R09.10: a native value lives in a box; the bytes accounted for it are the size of the boxed object plus its dyn_size().
+    Decided as a chain: the Native arm of XValue::size hands the boxed object to a size function that reaches
+    `size_of::<the object's own type>` (through full_size -> static_size of the blanket impl, whose type argument is the impl's
+    own type parameter), or measures it with size_of_val on the object -- never on the box / a reference to it."""
+    mir = ctx.mir
+    r10 = ctx.rule('R09.10', 'the static part of a native value is the size of the boxed object, not of a pointer to it')
+    POINTERISH = re.compile(r'^(&|\*const|\*mut|std::boxed::Box<|alloc::boxed::Box<|std::rc::Rc<|std::sync::Arc<)')
+
+    def own_size_reached(b, depth=3):
+        """does body b (given the object as self) compute size_of of its own type / size_of_val of the object?"""
+        for bb, t in b.calls():
+            cal = strip_generics(t.get('callee') or t.get('decl') or '')
+            subs = t.get('substs') or []
+            if cal == 'std::mem::size_of' and subs and subs[0] in ('S', 'Self'):
+                return True
+            if cal == 'std::mem::size_of_val' and subs and not POINTERISH.match(subs[0].strip()):
+                return True
+            if depth > 0 and cal.endswith(('::static_size', '::full_size')):
+                for y in mir.bodies:
+                    if y.nid.endswith(cal.split('::')[-1]) and y.nid != b.nid and ('RuntimeEquatable' in y.nid or 'XNativeValue' in y.nid):
+                        if own_size_reached(y, depth - 1):
+                            return True
+        return False
+    bs = [b for b in mir.bodies if b.nid == 'xvalue::XValue::size']
+    if not bs:
+        r10.fail('anchor/XValue::size', 'src/xvalue.rs', 'XValue::size not found')
+        r10.need(1)
+        return
+    # XValue::size and the same-type helpers it calls (a `heap_size(&self)` holding the match)
+    cands, todo = [bs[0]], [bs[0]]
+    while todo:
+        x = todo.pop()
+        for bb, t in x.calls():
+            cal = strip_generics(t.get('callee') or '')
+            if cal.startswith('xvalue::XValue::'):
+                for y in mir.bodies:
+                    if y.nid == cal and y not in cands:
+                        cands.append(y)
+                        todo.append(y)
+    found = []
+    for b in cands:
+        native_locals = set()
+        for i, j, s in b.stmts():
+            if s['k'] == 'assign' and 'place' in s['rv'] and any(isinstance(e, dict) and e.get('dc') == 'Native' for e in s['rv']['place']['p']):
+                native_locals.add(s['place']['l'])
+        reach = set(native_locals)
+        changed = True
+        while changed:
+            changed = False
+            for i, j, s in b.stmts():
+                if s['k'] == 'assign' and not s['place']['p'] and s['place']['l'] not in reach:
+                    srcs = mirq.operand_locals_of_rv(s['rv'])
+                    if any(x in reach for x in srcs):
+                        reach.add(s['place']['l'])
+                        changed = True
+            for bb, t in b.calls():
+                if not t['dest']['p'] and t['dest']['l'] not in reach and any(op_local(a) in reach for a in t['args']):
+                    nm = strip_generics(t.get('callee') or t.get('decl') or '')
+                    if nm.endswith(('::deref', '::as_ref', '::borrow')):
+                        reach.add(t['dest']['l'])
+                        changed = True
+        for bb, t in b.calls():
+            if not any(op_local(a) in reach for a in t['args']):
+                continue
+            cal = strip_generics(t.get('callee') or t.get('decl') or '')
+            subs = t.get('substs') or []
+            if cal == 'std::mem::size_of_val':
+                ok = bool(subs) and not POINTERISH.match(subs[0].strip())
+                found.append((mirq.site(b, bb), 'size_of_val::<%s>' % (subs[0] if subs else '?'), ok))
+            elif cal.endswith(('::full_size', '::static_size')):
+                ys = [y for y in mir.bodies if y.nid.endswith(cal.split('::')[-1]) and ('RuntimeEquatable' in y.nid or 'XNativeValue' in y.nid)]
+                ok = any(own_size_reached(y) for y in ys)
+                found.append((mirq.site(b, bb), cal.split('::')[-1], ok))
+    b = bs[0]
+    good = [f for f in found if f[2]]
+    r10.inst({'fn': 'XValue::size', 'native_payload_measured_by': [f[1] for f in found], 'reaches_size_of_the_object': bool(good)}, ok=bool(good), kind='native-arm')
+    if not good:
+        r10.fail('XValue::size/native-static-part', found[0][0] if found else 'src/xvalue.rs', 'the Native arm of XValue::size does not account the size of the boxed object itself (%s): every sequence, mapping, generator, ... is accounted the size of a pointer instead of its own struct, and a limit below the live payload is not enforced' % (', '.join(f[1] for f in found) or 'no size function receives the object'))
+    r10.need(1)
+
+
+_ALLOC_TABLE = {}
+
+
+def allocate_table(ctx, b):
+    """Outcome table of Runtime::allocate by finite abstract evaluation on the MIR.  The counter, the size of the new value and the
+    limit are touched only through +, - and comparisons, so five orderings of (counter + size) against the limit represent every
+    run: for each, the set of (result, counter afterwards) the body can end with.  Helpers of the crate (an `over_limit(total, max)`)
+    are evaluated in the same way; the newtype AllocatedMemory is its usize."""
+    if b.id in _ALLOC_TABLE:
+        return _ALLOC_TABLE[b.id]
+    from .lib import absint
+    from .lib.facts import callee_name
+    mir = ctx.mir
+    S0, K = 100, 7
+
+    def is_field(p, name):
+        names = [e.get('n') for e in p['p'] if isinstance(e, dict) and 'n' in e]
+        tail = [e for e in p['p'] if not (isinstance(e, dict) and 'n' in e) and e != '*']
+        return bool(names) and names[-1] == name and not [e for e in p['p'][max(i for i, e in enumerate(p['p']) if isinstance(e, dict) and e.get('n') == name) + 1:] if e != '*']
+
+    class R_(absint.Region):
+        def get(self, env, p):
+            if p['p'] and is_field(p, 'size') and 'RuntimeStats' in (self.b.local_ty(p['l']) or '') + 'RuntimeStats':
+                return env.get('#size', absint.UNKNOWN)
+            return absint.Region.get(self, env, p)
+
+        def assign(self, env, place, val):
+            if isinstance(val, tuple) and val and val[0] == 'effect':
+                env = dict(env)
+                env[val[1]] = val[2]
+                val = val[3]
+            if place['p'] and is_field(place, 'size'):
+                env = dict(env)
+                if val is absint.UNKNOWN:
+                    env.pop('#size', None)
+                else:
+                    env['#size'] = val
+                return env
+            return absint.Region.assign(self, env, place, val)
+
+    def field_oracle(p, env):
+        if is_field(p, 'size_limit'):
+            return env.get('#limit', absint.UNKNOWN)
+        return absint.UNKNOWN
+
+    def num(v, env):
+        v = absint.deref(None, env, v)
+        return v if isinstance(v, int) and not isinstance(v, bool) else None
+
+    def oracle(t, vals, env):
+        nm = strip_generics(callee_name(t) or t.get('decl') or '')
+        if nm.endswith('Allocateable::byte_size') or nm.endswith('::byte_size'):
+            return K
+        if re.search(r'AllocatedMemory as std::ops::(Add|Sub)Assign>::(add|sub)_assign$', nm) and len(vals) == 2:
+            k = num(vals[1], env)
+            cur = env.get('#size')
+            # the receiver must be the counter
+            rp = op_place(t['args'][0])
+            if k is None or not isinstance(cur, int):
+                return ('effect', '#size', absint.UNKNOWN, absint.UNKNOWN)
+            return ('effect', '#size', cur + k if 'AddAssign' in nm else cur - k, ('tuple', ()))
+        if re.search(r'AllocatedMemory as std::ops::(Add|Sub)>::(add|sub)$', nm) and len(vals) == 2:
+            a, c = num(vals[0], env), num(vals[1], env)
+            if a is None or c is None:
+                return absint.UNKNOWN
+            return a + c if nm.endswith('::add') else a - c
+        if re.search(r'(From<[^>]*>( for \w+)?>::from|Into<[^>]*>>::into|::from|::into)$', nm) and len(vals) == 1 and ('AllocatedMemory' in (callee_name(t) or '') + ' '.join(t.get('substs') or []) or 'usize' in ' '.join(t.get('substs') or [])):
+            v = num(vals[0], env)
+            return v if v is not None else absint.UNKNOWN
+        m = re.search(r'PartialOrd(<[^>]*>)?>::(lt|le|gt|ge)$', nm)
+        if m and len(vals) == 2:
+            a, c = num(vals[0], env), num(vals[1], env)
+            if a is None or c is None:
+                return absint.UNKNOWN
+            return {'lt': a < c, 'le': a <= c, 'gt': a > c, 'ge': a >= c}[m.group(2)]
+        return absint.UNKNOWN
+    out = []
+    scenarios = [('no limit is set', 'none', ('ok', 0, S0)),
+                 ('the new total stays below the limit', ('some', S0 + K + 1), ('ok', K, S0 + K)),
+                 ('the new total equals the limit', ('some', S0 + K), ('ok', K, S0 + K)),
+                 ('the new total exceeds the limit', ('some', S0 + K - 1), ('err', None, S0)),
+                 ('the limit was already exceeded', ('some', S0 - 1), ('err', None, S0))]
+    for scen, limit, want in scenarios:
+        got = set()
+
+        def event(kind, bb, idx, node, env, R):
+            if kind == 'term' and node['k'] == 'return':
+                v = R.get(env, {'l': 0, 'p': []})
+                size = env.get('#size', 'unknown')
+                if isinstance(v, tuple) and v and v[0] == 'ok':
+                    pv = absint.deref(R, env, v[1])
+                    got.add(('ok', pv if isinstance(pv, int) else 'unknown', size))
+                elif isinstance(v, tuple) and v and v[0] == 'err':
+                    got.add(('err', None, size))
+                else:
+                    got.add(('unrecognised', None, size))
+                return 'ret'
+            return None
+        R0 = absint.region_with_std_oracle(mir, b, oracle, event, field_oracle=field_oracle, cls=R_)
+        absint.CURRENT.append(R0)
+        try:
+            evs, silent, over = R0.run(0, {'#size': S0, '#limit': limit})
+        finally:
+            absint.CURRENT.pop()
+        if over:
+            got.add(('unrecognised', None, 'state budget exceeded'))
+        out.append((scen, want, got))
+    _ALLOC_TABLE[b.id] = out
+    return out
